@@ -15,6 +15,17 @@ def st_spec_only(eng):
     return False
 
 
+def term_size(t, cap):
+    """Number of AST nodes of t, counted up to cap."""
+    n = 0
+    todo = [t]
+    while todo and n < cap:
+        x = todo.pop()
+        n += 1
+        todo.extend(x.children())
+    return n
+
+
 class EngineError(Exception):
     """The function is outside the supported subset / contract drift (exit 2, never a violation)."""
 
@@ -326,9 +337,22 @@ class Engine:
             return z3.And(*[self.skolemize(c, sk) for c in g.children()])
         if z3.is_implies(g):
             return z3.Implies(g.arg(0), self.skolemize(g.arg(1), sk))
+        if z3.is_app_of(g, z3.Z3_OP_ITE) and z3.is_bool(g) and self.analyze(g)[2]:
+            return z3.If(g.arg(0), self.skolemize(g.arg(1), sk), self.skolemize(g.arg(2), sk))
         q = self.quants.get(g.get_id())
         if q is not None and q[0].is_exists():
             t, consts, rng, body = q
+            wl = [w for w in getattr(self, '_exists_wits', ())
+                  if len(w) == len(consts) and all(a.sort() == c.sort()
+                                                   for a, c in zip(w, consts))]
+            if wl:
+                # the contract names its witnesses: only those are tried
+                alts = []
+                for w in wl:
+                    sub = list(zip(consts, w))
+                    alts.append(z3.And(*([z3.substitute(r, *sub) for r in rng] +
+                                         [z3.substitute(body, *sub)])))
+                return z3.Or(*alts)
             if len(consts) == 1 and consts[0].sort() == z3.IntSort():
                 alts = []
                 for w in [z3.IntVal(n) for n in range(3)] + list(getattr(self, '_exists_cands',
@@ -366,6 +390,9 @@ class Engine:
                     walk(c, guards)
             elif z3.is_implies(x):
                 walk(x.arg(1), guards + (x.arg(0),))
+            elif z3.is_app_of(x, z3.Z3_OP_ITE) and z3.is_bool(x):
+                walk(x.arg(1), guards + (x.arg(0),))
+                walk(x.arg(2), guards + (z3.Not(x.arg(0)),))
             else:
                 q = self.quants.get(x.get_id())
                 if q is not None and not q[0].is_exists() and len(q[1]) == 1:
@@ -490,13 +517,15 @@ class Engine:
         if b is not None:
             yield b, False
 
-    def oblige(self, st, kind, label, goal, props=None, line=0, note='', hints=()):
+    def oblige(self, st, kind, label, goal, props=None, line=0, note='', hints=(),
+               witnesses=()):
         prem = list(st.pc) + list(st.qpc) + list(hints)
         # quantified goals are skolemised; sidecar `forall` premises are instantiated by hand at
         # the skolem constants and at the ground index terms of the path (no reliance on
         # E-matching over seq.nth, which neither back end does)
         sk = []
         self._exists_cands = []
+        self._exists_wits = list(witnesses)
         seen0 = set()
         for t in prem:
             for ix in self.nth_indices(t):
@@ -1885,6 +1914,13 @@ class Engine:
     def assign(self, target, v, st, line):
         if isinstance(target, ast.Name):
             s2 = st.copy()
+            if isinstance(v, V) and v.ty.kind in ('str', 'bytes') and not st.spec and \
+                    term_size(v.t, 8) >= 8:
+                # name a large string value (keeps later formulas small; the equation is a
+                # definition, so nothing is lost)
+                c = z3.Const(self.name(target.id), v.t.sort())
+                s2.pc.append(c == v.t)
+                v = V(v.ty, c)
             self.setlocal(s2, target.id, v)
             yield s2, None
         elif isinstance(target, ast.Attribute):
@@ -2235,6 +2271,7 @@ class Engine:
         return self.fresh(v.ty, hint, st)
 
     def _loop_exit(self, s2, st0):
+        s2 = s2.copy()      # library generators may still copy the state they yielded
         s2.loopw = None if st0.loopw is None else (set(st0.loopw) | (s2.loopw or set()))
         return s2
 
@@ -2451,6 +2488,10 @@ class Engine:
         self.cur_pre = pre
         self.cur_penv = penv
         for g, src in c.ghost_entry_:
+            if g not in self.reg.ghosts:        # a ghost local (like ghost_before's)
+                st.env = dict(st.env)
+                st.env[g] = self.spec(src, st, penv)
+                continue
             st.ghost[g] = self.coerce(self.spec(src, st, penv), self.reg.ghosts[g])
             self._wrote(st, ('ghost', g))
         # vacuity: the precondition must be satisfiable; a canary must be refutable
@@ -2512,7 +2553,15 @@ class Engine:
         for cl in c.ensures_:
             hints = [self.spec_bool(h, st, penv, result=res, pre=pre) for h in cl.hints]
             g = self.spec_bool(cl.src, st, penv, result=res, pre=pre, goal=True)
-            self.oblige(st, 'post', cl.label, g, props=cl.props, line=line, hints=hints)
+            wits = []
+            for w in cl.witnesses:
+                try:
+                    wits.append(tuple(self.spec(x, st, dict(st.env), modname=self.modname(st)).t
+                                      for x in ((w,) if isinstance(w, str) else w)))
+                except (EngineError, KeyError):
+                    pass
+            self.oblige(st, 'post', cl.label, g, props=cl.props, line=line, hints=hints,
+                        witnesses=wits)
         self.frame_obligations(st, c, penv, pre, line)
 
     def exit_raise(self, st, c, penv, pre, r, node):
